@@ -14,6 +14,8 @@ RULE = ("(pattern AST, syntax, case flag, path) cases: ASTs to depth 4 over {a b
         "posix-basic (ed, sed), posix-extended and grep; non-trivial = distinct (pattern, syntax) pair containing alternation, a repetition or a bracket")
 ASSUMPTIONS = [
     "Oniguruma on the anchored pattern (P)\\' (end of text) is a complete backtracking search (the model of the repaired code); its syntax tables per -regextype are exercised through the printers, not modelled",
+    "the engine's limit on backtracking steps is raised to the largest value its API accepts (2^32 - 1); a search abandoned beyond that is answered 'no match' "
+    "(exponential patterns on long paths) - a limitation of the backtracking engine that the model (complete search) does not have",
 ]
 TYPES = ["emacs", "posix-basic", "posix-extended", "grep", "ed", "sed"]
 TYPE_ID = {"emacs": 0, "grep": 1, "posix-basic": 2, "ed": 2, "sed": 2, "posix-extended": 3}
